@@ -95,6 +95,7 @@ func oracle(c core.Case, out []string) []core.Finding {
 	lastH := int64(0)
 	repairedUnsynced := false // a repair rewrote the head and no fsync-ing op has followed
 	crashAfterRepair := false
+	markerBehindCrash := false // the marker-missing branch appended to a head that was never checked for a torn tail
 	// records written before a crash and never acked can be lost; they stay in the journal as
 	// optional. To keep "acked" exact, un-acked records at a crash are frozen (never acked later).
 	frozen := map[int]bool{}
@@ -227,6 +228,20 @@ func oracle(c core.Case, out []string) []core.Finding {
 			if o == "ok" {
 				tainted = true
 			}
+		case "mkfile":
+			// a rotated file that is already in the directory when the group is opened: its records
+			// are durable and belong to file i
+			if strings.HasPrefix(o, "closed") {
+				fi, _ := natOf(m, "i")
+				if rs := m["recs"]; rs != "-" && rs != "" {
+					for _, h := range strings.Split(rs, ",") {
+						d, _ := unhx(h)
+						appendRec(d)
+						j[len(j)-1].acked = true
+						j[len(j)-1].file = int(fi)
+					}
+				}
+			}
 		case "raw":
 			tainted = true
 			// well-formed records at the front of the appended bytes count as written (by someone)
@@ -252,6 +267,11 @@ func oracle(c core.Case, out []string) []core.Finding {
 			if strings.HasPrefix(res, "repair:") {
 				repairedUnsynced = true
 			}
+			if strings.HasPrefix(res, "unrepaired-corrupt") {
+				add("consensus.State.OnStart.corrupted-wal-not-repaired",
+					"the catch-up replay stopped at a corrupted record ("+res+") but the start-up went on without backing up and repairing the WAL: the node now appends behind the damaged tail")
+				needRecover = false // the node considers itself started: what it syncs from now on is judged
+			}
 			if strings.HasPrefix(res, "ok(") || (strings.HasPrefix(res, "repair:") && strings.Contains(res, "/ok(")) {
 				needRecover = false
 			}
@@ -259,6 +279,16 @@ func oracle(c core.Case, out []string) []core.Finding {
 				d, _ := unhx(m["e0"])
 				appendRec(d)
 				ackLive()
+			}
+			if strings.HasSuffix(res, "marker-written") {
+				// catchupReplay wrote (and fsynced) the previous height's marker and reported success
+				d, _ := unhx(m["em"])
+				appendRec(d)
+				ackLive()
+				if needRecover && !strings.HasPrefix(res, "repair:") {
+					markerBehindCrash = true
+				}
+				needRecover = false
 			}
 		case "readall":
 			recs, end, ok := splitRecs(o, "recs")
@@ -279,6 +309,9 @@ func oracle(c core.Case, out []string) []core.Finding {
 			if !tainted && !unjudged {
 				if good, x := isSubseq(must, recs); !good {
 					switch {
+					case markerBehindCrash:
+						add("consensus.catchupReplay.marker-written-behind-unchecked-tail",
+							"acknowledged record "+x+" is not returned: after a crash the previous height's marker was missing, catchupReplay wrote it (and the node went on writing) without the head ever being read to its end, so a torn tail stayed unrepaired in front of everything written since (reader ends with "+end+")")
 					case crashAfterRepair:
 						add("consensus.repairWalFile.rewritten-head-not-fsynced",
 							"acknowledged record "+x+" is gone: the repair rewrote the head file in place without fsync and a crash followed before the next fsync")
@@ -319,7 +352,10 @@ func oracle(c core.Case, out []string) []core.Finding {
 				}
 			}
 			if o == "not-found" && durable && monotone && !tainted && !unjudged {
-				if crashAfterRepair {
+				if markerBehindCrash {
+					add("consensus.catchupReplay.marker-written-behind-unchecked-tail",
+						fmt.Sprintf("#ENDHEIGHT %d was fsynced and not pruned but is not found: it sits behind a torn tail that the marker-missing branch of catchupReplay left unrepaired", h))
+				} else if crashAfterRepair {
 					add("consensus.repairWalFile.rewritten-head-not-fsynced",
 						fmt.Sprintf("acknowledged marker #ENDHEIGHT %d is gone after a crash that followed an un-fsynced repair", h))
 				} else {
